@@ -243,6 +243,24 @@ Example C17_key_tables_nonvacuous :
   NoDup (root_id :: flat_map aids [ex_root]) /\ forest_keys_unique [ex_root].
 Proof. exact ex_key_tables. Qed.
 
+(* a concrete whole file (ex_whole: 9000 bytes, header 2 zeros, an unallocated and an ignored object
+   entry) meets every hypothesis of C17_simple_file_roundtrip, and decodes to {"c": {"v": -5}} *)
+Example C17_whole_file_nonvacuous :
+  parse_fhdr (fread ex_whole 0 46) = Some ex_h1 /\ parse_fhdr (fread ex_whole 4096 46) = Some ex_h2 /\
+  h_sig (active_header ex_h1 ex_h2) = 19406868 /\ h_ver (active_header ex_h1 ex_h2) = 1024 /\
+  load_rlog ex_whole (h_rlo (active_header ex_h1 ex_h2)) = Ok tt /\
+  load_otab ex_whole 8192 = Ok ex_oes /\
+  (forall e, In e ex_oes -> o_alloc e <> 0 ->
+             o_type e <> 1 /\ (o_type e = 6 -> load_rlog ex_whole (o_off e) = Ok tt)) /\
+  Forall2 (fun e kt => load_ktab ex_whole (o_off e) (o_size e) = Ok kt) (filter is_ktab ex_oes) [kt_of ex_stable] /\
+  Forall (stable_ok ex_whole (fobjs_of ex_oes)) [ex_stable] /\
+  (forall T, In T [ex_stable] -> In (kt_of T) [kt_of ex_stable]) /\
+  (forall kt, In kt [kt_of ex_stable] ->
+     exists T, In T [ex_stable] /\ st_idx T = kt_index kt /\ (kt = kt_of T \/ kt_seq kt < st_seq T)) /\
+  (exists p, open_file ex_whole = Ok p /\
+             link (p_tables p) = Ok (Node [([99], Node [([118], Leaf (VInt (-5)))])])).
+Proof. exact ex_whole_file. Qed.
+
 (* a stored string entry with flags and padding, decoded from its bytes *)
 Example C17_entry_example :
   let e := {| se_type := 6 + 256 * 2; se_pidx := 1; se_poff := 10; se_ck := 7; se_ins := 3; se_key := [107];
